@@ -116,10 +116,16 @@ def seconds2hms(total_seconds):
     References:
         :cite:t:`vallado_2013_astro`, Section 3.6.3
     """
-    temp = total_seconds / 3600
-    hour = floor(temp)
-    minute = floor((temp - hour) * 60)
-    second = (temp - hour - minute / 60) * 3600
+    # Split the seconds themselves (not the decimal hours): every step then subtracts a whole number
+    # of seconds, so a time that falls exactly on a minute gives second == 0.0, never -4e-13.
+    hour = floor(total_seconds / 3600)
+    remainder = total_seconds - hour * 3600
+    minute = floor(remainder / 60)
+    second = remainder - minute * 60
+    if second < 0:
+        # `remainder / 60` rounded up to the next whole minute
+        minute -= 1
+        second += 60
 
     return hour, minute, second
 
